@@ -48,6 +48,7 @@ def add_subparser_parse_circexplorer(subparsers:argparse._SubParsersAction):
     )
     p.add_argument(
         '--min-fpb-circ',
+        dest='min_fbr_circ',
         type=float,
         help='Minimal CRICscore value for CIRCexplorer3. Recommends to 1,'
         ' defaults to None',
